@@ -348,3 +348,53 @@ _base_scn_aa = scenarios
 
 def scenarios():
     return _base_scn_aa() + [add_alias(n) for n in (1, 2)]
+
+
+def sort_alias():
+    """PGPKeyring._sort_alias(alias) over two abstract layers: the ids the alias led to are the same afterwards (none lost, none invented,
+    none duplicated), one per layer from the first layer on; an arbitrary other identifier is untouched. (Which of several keys sharing an
+    identifier comes first is not prescribed by the property and not stated here. Limit of the abstraction: whether a layer has become
+    EMPTY cannot be told for an abstract map, so the removal of empty layers at the end is not covered - the bounded components are.)"""
+    label = 'C19/PGPKeyring._sort_alias[2 layers]'
+    KEYC = 'pgpy.pgp.PGPKey'
+
+    def gen(repo):
+        r = scn.Run(repo, RING, '_sort_alias', label)
+        ex, st = r.ex, r.st
+        has, val, layers = _amaps(r, 2)
+        ring = E.VObj(RING, 'ring')
+        r.set('ring', '_aliases', ex.new_list(st, layers))
+        A, K = z3.Const('ALIAS', B), z3.Const('ANY_OTHER_IDENTIFIER', B)
+        st.pc.append(K != A)
+        pre = [(has(st, m, A), val(st, m, A), has(st, m, K), val(st, m, K)) for m in layers]
+        st.pc.append(z3.Implies(z3.And(pre[0][0], pre[1][0]), pre[0][1] != pre[1][1]))      # invariant: an alias leads to an id in one layer only
+        CREATED, ISPUB = z3.Function('CREATED', z3.IntSort(), z3.IntSort()), z3.Function('IS_PUBLIC', z3.IntSort(), z3.BoolSort())
+        r.set('ring', '_keys', E.VObj('abstract:KeyTable', 'keys'))
+        r.hook('abstract:KeyTable', '__getitem__', scn.method_hook(lambda ex, st, o, a: [(st, E.VObj(KEYC, ex.as_int(a[0])))]))
+        r.hook(KEYC, 'created', lambda ex, st, o, a: [(st, E.VInt(CREATED(o.ref if z3.is_expr(o.ref) else z3.IntVal(0))))])
+        r.hook(KEYC, 'is_public', lambda ex, st, o, a: [(st, E.VBool(ISPUB(o.ref if z3.is_expr(o.ref) else z3.IntVal(0))))])
+        for pi, (s, v) in enumerate(r.call(ring, [E.VStr(z=A)])):
+            if isinstance(v, E.Raise):
+                r.oblige(s, 'safety(%s)/p%d' % (v.exc.split(':')[0], pi), z3.BoolVal(False), v.where)
+                continue
+            now = ex.items(s.heap[('ring', '_aliases')], s)
+            r.oblige(s, 'the-layers-are-still-there,in-order/p%d' % pi, z3.BoolVal(now == layers))
+            h0, v0, h1, v1 = has(s, layers[0], A), val(s, layers[0], A), has(s, layers[1], A), val(s, layers[1], A)
+            c0, i0, c1, i1 = pre[0][0], pre[0][1], pre[1][0], pre[1][1]
+            r.oblige(s, 'as-many-links-as-before,one-per-layer-from-the-first-layer-on/p%d' % pi,
+                     z3.And(h0 == z3.Or(c0, c1), h1 == z3.And(c0, c1)))
+            r.oblige(s, 'the-same-ids(none-lost,none-invented,none-twice)/p%d' % pi,
+                     z3.And(z3.Implies(z3.And(c0, z3.Not(c1)), v0 == i0), z3.Implies(z3.And(c1, z3.Not(c0)), v0 == i1),
+                            z3.Implies(z3.And(c0, c1), z3.Or(z3.And(v0 == i0, v1 == i1), z3.And(v0 == i1, v1 == i0)))))
+            for i, m in enumerate(layers):
+                r.oblige(s, 'layer-%d:any-other-identifier-is-untouched/p%d' % (i, pi),
+                         z3.And(has(s, m, K) == pre[i][2], z3.Implies(pre[i][2], val(s, m, K) == pre[i][3])))
+        return r.result()
+    return Scenario(label, RING + '._sort_alias', gen, props=('C19',))
+
+
+_base_scn_sa2 = scenarios
+
+
+def scenarios():
+    return _base_scn_sa2() + [sort_alias()]
